@@ -387,6 +387,105 @@ def iteration_paths(body: List[ast.stmt], acc: str, defs: Optional[Dict[str, ast
     return [(c, n, "fall") for c, n in running] + finished
 
 
+def canonical_calls(func_node: ast.AST, self_aliases: bool = True):
+    """All call statements / store statements of a function in a name-free form.
+
+    The body is walked in order with an environment of straight-line definitions (locals assigned from pure expressions are
+    substituted at their uses; a re-assignment replaces the definition; definitions made inside a branch or loop do not
+    escape it).  A loop variable is written as `<iter text>` (its iterable, itself canonical), tuple targets as
+    `<iter>[0]`, `<iter>[1]`.  Locals that alias a self attribute (`flow_attr = self.node_flow_attr`) are resolved.
+    Returns [(text of the statement, path condition as sa.boolnf formula, lineno)] for every expression statement, assignment
+    to a subscript / attribute, and augmented assignment."""
+    from sa import boolnf as B
+    from sa.mir import _tuple_index_simplify, subst as _subst, SUBSTITUTABLE
+    out: List[Tuple[str, tuple, int]] = []
+    mutated = set()
+    for n in walk_no_nested(func_node):
+        if isinstance(n, ast.Call) and isinstance(n.func, ast.Attribute) and isinstance(n.func.value, ast.Name) and \
+                n.func.attr in ("add", "append", "extend", "update", "insert", "remove", "discard", "pop", "clear", "setdefault", "sort"):
+            mutated.add(n.func.value.id)
+        if isinstance(n, ast.Assign):
+            for t in n.targets:
+                if isinstance(t, ast.Subscript) and isinstance(t.value, ast.Name):
+                    mutated.add(t.value.id)
+        if isinstance(n, ast.AugAssign) and isinstance(n.target, ast.Name):
+            mutated.add(n.target.id)
+
+    def S(e, env):
+        x = e
+        for _ in range(3):
+            x = _subst(x, env)
+        return _tuple_index_simplify(x)
+
+    def bind(target, it_text, env):
+        env = dict(env)
+        if isinstance(target, ast.Name):
+            env[target.id] = ast.Name(id=f"<{it_text}>", ctx=ast.Load())
+        elif isinstance(target, (ast.Tuple, ast.List)):
+            for i, t in enumerate(target.elts):
+                if isinstance(t, ast.Name):
+                    env[t.id] = ast.Name(id=f"<{it_text}>[{i}]", ctx=ast.Load())
+                else:
+                    for j, x in enumerate([x for x in ast.walk(t) if isinstance(x, ast.Name)]):
+                        env[x.id] = ast.Name(id=f"<{it_text}>[{i}][{j}]", ctx=ast.Load())
+        return env
+
+    def walk(stmts, env, cond):
+        env = dict(env)
+        for st in stmts:
+            if isinstance(st, ast.Assign) and len(st.targets) == 1 and isinstance(st.targets[0], ast.Name) and st.targets[0].id not in mutated and \
+                    isinstance(st.value, SUBSTITUTABLE):
+                v = S(st.value, env)
+                if isinstance(st.value, ast.Call):
+                    out.append((f"{st.targets[0].id} = {norm(v)}", cond, st.lineno))
+                env[st.targets[0].id] = v
+            elif isinstance(st, ast.Assign):
+                tg = ", ".join(norm(S(t, env)) for t in st.targets)
+                out.append((f"{tg} = {norm(S(st.value, env))}", cond, st.lineno))
+                for t in st.targets:
+                    for x in ast.walk(t):
+                        if isinstance(x, ast.Name) and isinstance(x.ctx, ast.Store):
+                            env.pop(x.id, None)
+            elif isinstance(st, ast.AugAssign):
+                out.append((f"{norm(S(st.target, env))} {type(st.op).__name__}= {norm(S(st.value, env))}", cond, st.lineno))
+                if isinstance(st.target, ast.Name):
+                    env.pop(st.target.id, None)
+            elif isinstance(st, ast.Expr):
+                out.append((norm(S(st.value, env)), cond, st.lineno))
+            elif isinstance(st, ast.If):
+                t = B.parse(S(st.test, env))
+                walk(st.body, env, B.mk_and([cond, t]))
+                walk(st.orelse, env, B.mk_and([cond, B.mk_not(t)]))
+                if st.body and isinstance(st.body[-1], (ast.Return, ast.Raise, ast.Continue, ast.Break)) and not st.orelse:
+                    cond = B.mk_and([cond, B.mk_not(t)])
+                assigned = {x.id for s_ in st.body + st.orelse for x in ast.walk(s_) if isinstance(x, ast.Name) and isinstance(x.ctx, ast.Store)}
+                for a_ in assigned:
+                    env.pop(a_, None)
+            elif isinstance(st, (ast.For, ast.AsyncFor)):
+                it_text = norm(S(st.iter, env))
+                walk(st.body, bind(st.target, it_text, env), cond)
+                assigned = {x.id for s_ in st.body for x in ast.walk(s_) if isinstance(x, ast.Name) and isinstance(x.ctx, ast.Store)}
+                for a_ in assigned:
+                    env.pop(a_, None)
+            elif isinstance(st, ast.While):
+                walk(st.body, env, B.mk_and([cond, B.parse(S(st.test, env))]))
+            elif isinstance(st, (ast.With,)):
+                walk(st.body, env, cond)
+            elif isinstance(st, ast.Try):
+                walk(st.body, env, cond)
+                for h in st.handlers:
+                    walk(h.body, env, cond)
+                walk(st.finalbody, env, cond)
+            elif isinstance(st, ast.Return) and st.value is not None:
+                out.append(("return " + norm(S(st.value, env)), cond, st.lineno))
+            elif isinstance(st, ast.Raise):
+                out.append(("raise " + (norm(S(st.exc, env))[:60] if st.exc is not None else ""), cond, st.lineno))
+        return env
+
+    walk(func_node.body, {}, B.T)
+    return out
+
+
 class RuleProxy:
     """Report view that files every obligation of a borrowed rule module under one rule id of the borrowing property."""
 
